@@ -915,15 +915,18 @@ fn gen_zero_case(rng: &mut Rng) -> Case {
     let mut live: Vec<(u64, Vec<u8>)> = vec![];
     let mut next_h = 1u64;
     let n_nodes = 1 + rng.usize(3);
+    let mut last: BTreeMap<u64, Val> = BTreeMap::new();
     for _ in 0..n_nodes {
         let l = if rng.chance(3, 4) { 1u8 } else { 2u8 };
         let props = if rng.chance(3, 4) { vec![(1u8, zeros[rng.usize(zeros.len())].clone())] } else { vec![] };
+        if let Some((_, v)) = props.first() {
+            last.insert(next_h, v.clone());
+        }
         ops.push(HOp::Create { h: next_h, labels: vec![l], props });
         live.push((next_h, vec![l]));
         next_h += 1;
     }
     let steps = 3 + rng.usize(7);
-    let mut last: BTreeMap<u64, Val> = BTreeMap::new();
     for _ in 0..steps {
         if live.is_empty() {
             break;
@@ -934,6 +937,9 @@ fn gen_zero_case(rng: &mut Rng) -> Case {
             // a zero of either sign, or the very value written last
             let v = match (rng.usize(4), last.get(&h)) {
                 (0, Some(v)) => v.clone(),
+                // the zero of the opposite sign: `==` to what is stored, another key
+                (1 | 2, Some(Val::Flt(0))) => Val::NZero,
+                (1 | 2, Some(Val::NZero)) => Val::Flt(0),
                 _ => zeros[rng.usize(zeros.len())].clone(),
             };
             last.insert(h, v.clone());
